@@ -56,9 +56,24 @@
 #endif
 #define BS (1u << BS_LOG)
 
+/* W14_BLK_PHYS: payload bytes physically present in the block objects of the
+ * model (8, not BS). cbmc expands every access through a loop-havocked
+ * pointer (proc->blk_current, proc->free_list) into a case split over all
+ * address-taken objects, and a 4 KiB..1 MiB byte array in that split costs
+ * millions of clauses (measured on append: 7.2M variables / 458 s with the
+ * arrays, 0.5M / 50 s without). No function of the front end reads or writes
+ * payload bytes except through memcpy/memset, which are checking stubs here;
+ * each of them proves "offset + n <= BS" arithmetically (C01.bp.append_safe,
+ * C01.bp.enqueue.copy), and the capacity BS itself is the argument of the
+ * real malloc(sizeof(*blk) + max_block_size), asserted by the malloc contract
+ * in w14_bp_get_new_block.c (C01.bp.get_new_block.capacity). */
+#ifndef W14_BLK_PHYS
+#define W14_BLK_PHYS 8
+#endif
+
 typedef struct {
 	sqfs_block_t b;
-	sqfs_u8 data[BS];
+	sqfs_u8 data[W14_BLK_PHYS];
 } blk_t;
 
 typedef struct {
